@@ -234,6 +234,11 @@ fn api_from(s: &str) -> Api {
 }
 
 pub fn replay(case: &Value) -> Result<String, String> {
+    if let Some(k) = case["burst"].as_u64() {
+        let kvs = kvs_from(&case["kvs"]);
+        let r = c07::reference(&kvs)?;
+        return c07::run_one(&kvs, &r, &[], Policy::InterruptBurst(k as usize)).map(|c| format!("{} sink calls, all bytes arrived", c.len()));
+    }
     let kvs = kvs_from(&case["kvs"]);
     let r = c07::reference(&kvs)?;
     let benign = if case["benign"].is_null() {
@@ -249,7 +254,7 @@ pub fn plan(tier: Tier) -> Plan {
     let _ = probe(); // built here, on the main thread, before any fault is injected
     let mut p = Plan::new("C11", "fault_enumeration");
     let thorough = tier.thorough();
-    p.rule = "for each input (the C07 list - every emission site: header, each node form, index table, count byte, footer, checksum, flush - plus every subset of U_ab2 as map and, from 3 keys, as set; a ten-key set and a 40-way fan-out set) W = measured number of sink calls of the fault-free run; for every call index 0..W (writes and the final flush), every failure kind {Err(Other), Err(BrokenPipe), Err(PermissionDenied), Ok(0); for flush also Err(Interrupted)}, single and persistent, through MapBuilder/SetBuilder/raw::Builder (into_inner and finish) with single inserts and with the whole history as one extend_iter / extend_stream call, and additionally with one benign deviation (every short write / Interrupted at every earlier call) before the fault: the API call during which the failing sink call happens must return Err(Io); no panic; no Ok from a call that saw the fault; accepted bytes stay a prefix of the fault-free output; bytes_written() equals the accepted bytes also after the failed call; and builds of the same input and of a probe input with other wide nodes on the same thread after the failed build give the fault-free bytes; for inputs of more than 5 keys a short write inside every block write followed by a fault at the next call. non-trivial = every injected fault (all distinct by index x kind x mode x api)".into();
+    p.rule = "for each input (the C07 list - every emission site: header, each node form, index table, count byte, footer, checksum, flush - plus every subset of U_ab2 as map and, from 3 keys, as set; a ten-key set and a 40-way fan-out set; a 9000-byte key followed by other keys, with a sample of the call indices); every input also through sinks that answer with bursts of 15..300 Interrupted results (must finish with every byte); W = measured number of sink calls of the fault-free run; for every call index 0..W (writes and the final flush), every failure kind {Err(Other), Err(BrokenPipe), Err(PermissionDenied), Ok(0); for flush also Err(Interrupted)}, single and persistent, through MapBuilder/SetBuilder/raw::Builder (into_inner and finish) with single inserts and with the whole history as one extend_iter / extend_stream call, and additionally with one benign deviation (every short write / Interrupted at every earlier call) before the fault: the API call during which the failing sink call happens must return Err(Io); no panic; no Ok from a call that saw the fault; accepted bytes stay a prefix of the fault-free output; bytes_written() equals the accepted bytes also after the failed call; and builds of the same input and of a probe input with other wide nodes on the same thread after the failed build give the fault-free bytes; for inputs of more than 5 keys a short write inside every block write followed by a fault at the next call. non-trivial = every injected fault (all distinct by index x kind x mode x api)".into();
     p.assumptions = vec![
         "the caller stops at the first Err (as with `?`); behaviour of a builder that is used after it returned an error is not asserted".into(),
         "Ok(0) is only injected into write calls, never into flush".into(),
@@ -257,6 +262,8 @@ pub fn plan(tier: Tier) -> Plan {
     let mut inputs: Vec<(String, Vec<Kv>)> = c07::inputs().into_iter().map(|(n, k)| (n.to_string(), k)).collect();
     // sets (all values zero) large enough that nodes are written DURING the
     // insert / bulk calls, so that the set entry points see the faults too
+    // one call that freezes more than 8 KiB of nodes: a 9000-byte key followed by an unrelated key
+    inputs.push(("long-key-9000-then-another".into(), vec![(vec![b'a'; 9000], 5), (b"b".to_vec(), 1), (b"bc".to_vec(), 1 << 40)]));
     inputs.push(("set-of-ten-keys".into(), Pat::Zero.apply(&[b"a".to_vec(), b"aa".to_vec(), b"aab".to_vec(), b"ab".to_vec(), b"abc".to_vec(), b"b".to_vec(), b"ba".to_vec(), b"bca".to_vec(), b"c".to_vec(), b"cab".to_vec()])));
     inputs.push(("set-fanout-40".into(), Pat::Zero.apply(&(0..40u8).flat_map(|b| [vec![b'p', b], vec![b'p', b, b'x']]).collect::<Vec<Key>>())));
     let u = u_ab2();
@@ -276,12 +283,26 @@ pub fn plan(tier: Tier) -> Plan {
             if is_set {
                 apis.extend([Api::SetBuilder, Api::SetExtendIter, Api::SetExtendStream]);
             }
+            // no build is reported as finished unless every byte was accepted: sinks that
+            // answer with long bursts of Interrupted (never a hard error) must still get everything
+            for k in [15usize, 16, 17, 64, 300] {
+                st.evals += 1;
+                st.count("interrupted_burst_runs", 1);
+                if let Err(msg) = c07::run_one(&kvs, &reference, &[], Policy::InterruptBurst(k)) {
+                    rep.violation(format!("{} bursts of {} Interrupted", name, k), format!("a sink answering every call with {} consecutive Interrupted results first: {}", k, msg), json!({"kvs": kvs_json(&kvs), "burst": k}));
+                }
+            }
             // W from the fault-free run
             let calls = match c07::run_one(&kvs, &reference, &[], Policy::Default) { Ok(c) => c, Err(_) => return };
             let w = calls.len();
             st.max("max_sink_calls", w as u64);
             st.sample(|| json!({"input": name, "kvs": kvs_str(&kvs), "sink_calls": w}));
-            for at in 0..w {
+            // very long call logs: the first and last 24 calls and every 53rd in between
+            let ats: Vec<usize> = if w > 2000 { (0..w).filter(|&a| a < 24 || a + 24 >= w || a % 53 == 0).collect() } else { (0..w).collect() };
+            if w > 2000 {
+                apis.retain(|a| matches!(a, Api::RawInsert | Api::MapBuilder | Api::RawExtendIter | Api::MapExtendStream));
+            }
+            for at in ats {
                 // an Interrupted error from flush() is an error return like any other
                 // (write calls retry it, flush does not)
                 for fault in FAULTS.iter().cloned().chain(if calls[at].is_flush { Some(Ans::Interrupted) } else { None }) {
@@ -308,7 +329,7 @@ pub fn plan(tier: Tier) -> Plan {
             }
             // larger inputs: a short write inside every BLOCK write (>= 16 bytes, e.g. the
             // 256-byte index of a wide node) followed by a fault at the very next call
-            if kvs.len() > 5 && !thorough {
+            if (kvs.len() > 5 && !thorough) || w > 2000 {
                 for dev_at in 0..w {
                     let len = calls[dev_at].len;
                     if calls[dev_at].is_flush || len < 16 {
@@ -335,7 +356,7 @@ pub fn plan(tier: Tier) -> Plan {
                 }
             }
             // one benign deviation before the fault (raw builder)
-            if kvs.len() <= 5 || thorough {
+            if (kvs.len() <= 5 || thorough) && w <= 2000 {
                 for dev_at in 0..w {
                     if calls[dev_at].is_flush {
                         continue;
